@@ -508,7 +508,7 @@ func init() {
 			}
 			r.Check(item != nil, "arg-loop/item", loop.Pos(), "each argument is converted by processExpr")
 			// writes inside the loop: only to pset.<slice field>, locals defined in the loop, and the collector
-			ast.Inspect(loop.Body, func(nd ast.Node) bool {
+			fi.inspect(loop.Body, func(nd ast.Node) bool {
 				as, ok := nd.(*ast.AssignStmt)
 				if !ok {
 					return true
@@ -577,23 +577,57 @@ func init() {
 						continue
 					}
 					if _, isIface := t.Underlying().(*types.Interface); isIface {
-						// a variable holding another call's interface result
-						if d := f.defOf(e); d != nil {
-							if cl, ok := ast.Unparen(d.rhs).(*ast.CallExpr); ok {
-								collect(c.FnOf(f.callee(cl)), depth+1)
-								continue
+						// a variable holding call results: every definition contributes its callee's result type
+						okAll := false
+						if v := f.varOf(e); v != nil && len(f.defs[v]) > 0 {
+							okAll = true
+							for _, d := range f.defs[v] {
+								if d.kind == "zero" {
+									continue
+								}
+								cl, isCall := ast.Unparen(d.rhs).(*ast.CallExpr)
+								if d.rhs == nil || !isCall || f.callee(cl) == nil {
+									okAll = false
+									continue
+								}
+								cf := f.callee(cl)
+								idx := d.idx
+								if idx < 0 {
+									idx = 0
+								}
+								rt := cf.Type().(*types.Signature).Results().At(idx).Type()
+								if _, isI := rt.Underlying().(*types.Interface); isI {
+									collect(c.FnOf(cf), depth+1)
+								} else {
+									universe[types.TypeString(rt, nil)] = true
+								}
 							}
 						}
-						r.Undecided("universe/"+f.Name, ret.Pos(), "cannot determine the dynamic type of %s", exprShort(e))
+						if !okAll {
+							r.Undecided("universe/"+f.Name, ret.Pos(), "cannot determine the dynamic type of %s", exprShort(e))
+						}
 						continue
 					}
 					universe[types.TypeString(t, nil)] = true
 				}
 			}
 			collect(c.Fn(c.W, "objectCache.processExpr"), 0)
+			// code of processExpr moved into single-call-site helpers still belongs to it
+			if pe := c.Fn(c.W, "objectCache.processExpr"); pe != nil {
+				for _, cl := range pe.callsDeep(pe.Decl.Body) {
+					if h := c.linked[cl]; h != nil {
+						res := h.Obj.Type().(*types.Signature).Results()
+						if res.Len() > 0 {
+							if _, isI := res.At(0).Type().Underlying().(*types.Interface); isI {
+								collect(h, 0)
+							}
+						}
+					}
+				}
+			}
 			var sw *ast.TypeSwitchStmt
-			ast.Inspect(loop.Body, func(nd ast.Node) bool {
-				if s, ok := nd.(*ast.TypeSwitchStmt); ok && sw == nil && item != nil && fi.varOf(typeSwitchSubject(s)) == item {
+			fi.inspect(loop.Body, func(nd ast.Node) bool {
+				if s, ok := nd.(*ast.TypeSwitchStmt); ok && sw == nil && item != nil && (fi.varOf(typeSwitchSubject(s)) == item || fi.varOf(fi.deref(typeSwitchSubject(s))) == item) {
 					sw = s
 				}
 				return true
@@ -626,12 +660,23 @@ func init() {
 				return
 			}
 			handled := map[string]bool{}
+			isName := func(e ast.Expr) bool {
+				return fi.isCall(fi.deref(e), "go/types.Object.Name", "go/types.object.Name", "go/types.Func.Name") != nil
+			}
 			fi.inspect(fi.Decl.Body, func(nd ast.Node) bool {
+				if be, ok := nd.(*ast.BinaryExpr); ok && be.Op == token.EQL {
+					for i, side := range []ast.Expr{be.X, be.Y} {
+						other := []ast.Expr{be.Y, be.X}[i]
+						if lit, ok := ast.Unparen(other).(*ast.BasicLit); ok && isName(side) {
+							handled[strings.Trim(lit.Value, `"`)] = true
+						}
+					}
+				}
 				sw, ok := nd.(*ast.SwitchStmt)
 				if !ok || sw.Tag == nil {
 					return true
 				}
-				if fi.isCall(sw.Tag, "go/types.Object.Name", "go/types.object.Name", "go/types.Func.Name") == nil {
+				if !isName(sw.Tag) {
 					return true
 				}
 				for _, s := range sw.Body.List {
@@ -886,7 +931,7 @@ func (fi *FuncInfo) argTypeOf(e ast.Expr, callP *types.Var, k int) bool {
 	if tc == nil {
 		return false
 	}
-	ix, ok := ast.Unparen(tc.Args[0]).(*ast.IndexExpr)
+	ix, ok := fi.deref(tc.Args[0]).(*ast.IndexExpr)
 	if !ok {
 		return false
 	}
@@ -927,87 +972,160 @@ func (fi *FuncInfo) okTested(gs []Cond, d *defSite) bool {
 	return false
 }
 
-// hasPairCheck recognises
+// hasPairCheck recognises, in any of its usual spellings,
 //
-//	for i := 0; i < N; i++ { … for j := 0; j < i; j++ { if types.Identical(X[i].Type, X[j].Type) { return …error } } }
+//	for i over all of X { … for j over [0,i) { if types.Identical(X[i].Type, X[j].Type) { return …error } } }
+//
+// The outer loop may be a counting loop up to the length of X or a range over
+// X; the inner loop a counting loop `j < i` or a range over the prefix X[:i];
+// X[i].Type may be read through a local that is stored into X[i] in the same
+// iteration.
 func (fi *FuncInfo) hasPairCheck() (bool, string) {
+	why := "no pairwise types.Identical test over the provider's inputs found"
 	for _, id := range fi.callsTo(fnIdentical) {
 		is, ok := fi.parent[id].(*ast.IfStmt)
 		if !ok || ast.Unparen(is.Cond) != ast.Expr(id) {
 			continue
 		}
-		elem := func(e ast.Expr) (ast.Expr, *types.Var) {
-			sel, ok := ast.Unparen(e).(*ast.SelectorExpr)
-			if !ok || fi.selField(sel) == nil || fi.selField(sel).Name() != "Type" {
-				return nil, nil
-			}
-			ix, ok := ast.Unparen(sel.X).(*ast.IndexExpr)
-			if !ok {
-				return nil, nil
-			}
-			return ix.X, fi.varOf(ix.Index)
-		}
-		xa, ia := elem(id.Args[0])
-		xb, ib := elem(id.Args[1])
-		if xa == nil || xb == nil || ia == nil || ib == nil || ia == ib || !fi.sameExpr(xa, xb) {
-			continue
-		}
-		inner, _ := fi.enclosingLoop(is).(*ast.ForStmt)
+		// enclosing loops (inner, outer)
+		inner := fi.enclosingLoop(is)
 		if inner == nil {
 			continue
 		}
-		li := fi.loopShape(inner)
-		if li == nil || !li.ascending || li.inclusive || li.from != "0" {
-			return false, "inner loop is not `for j := 0; j < i; j++`"
-		}
-		var iv, jv *types.Var
-		if li.v == ia {
-			jv, iv = ia, ib
-		} else if li.v == ib {
-			jv, iv = ib, ia
-		} else {
-			continue
-		}
-		if fi.varOf(li.boundExpr) != iv {
-			return false, "inner loop bound is not the outer index (pairs are skipped)"
-		}
-		_ = jv
-		outer, _ := fi.enclosingLoop(inner).(*ast.ForStmt)
+		outer := fi.enclosingLoop(inner)
 		if outer == nil {
 			continue
 		}
-		lo := fi.loopShape(outer)
-		if lo == nil || lo.v != iv || !lo.ascending || lo.inclusive || lo.from != "0" {
-			return false, "outer loop is not `for i := 0; i < N; i++`"
+		// outer: index variable i and the sequence X it covers
+		var iv *types.Var
+		var seq ast.Expr
+		switch o := outer.(type) {
+		case *ast.ForStmt:
+			lo := fi.loopShape(o)
+			if lo == nil || !lo.ascending || lo.inclusive || lo.from != "0" {
+				why = "outer loop is not `for i := 0; i < N; i++`"
+				continue
+			}
+			iv = lo.v
+			if l := fi.isBuiltin(fi.deref(lo.boundExpr), "len"); l != nil {
+				seq = l.Args[0]
+			} else {
+				// N is the length X was made with
+				fi.inspect(fi.Decl.Body, func(nd ast.Node) bool {
+					if kv, ok := nd.(*ast.KeyValueExpr); ok {
+						if kid, ok := kv.Key.(*ast.Ident); ok && kid.Name == "Args" {
+							if mk := fi.isBuiltin(kv.Value, "make"); mk != nil && len(mk.Args) == 2 && fi.sameExpr(mk.Args[1], lo.boundExpr) {
+								seq = kv.Value // marker: the Args field of the literal
+							}
+						}
+					}
+					if as, ok := nd.(*ast.AssignStmt); ok && len(as.Rhs) == 1 && len(as.Lhs) == 1 {
+						if mk := fi.isBuiltin(as.Rhs[0], "make"); mk != nil && len(mk.Args) == 2 && fi.sameExpr(mk.Args[1], lo.boundExpr) {
+							seq = as.Lhs[0]
+						}
+					}
+					return true
+				})
+			}
+		case *ast.RangeStmt:
+			if o.Key == nil {
+				why = "outer range loop has no index"
+				continue
+			}
+			iv = fi.varOf(o.Key)
+			seq = o.X
 		}
-		// N covers all of X: len(X), or the length X was made with
-		okN := false
-		if l := fi.isBuiltin(lo.boundExpr, "len"); l != nil && fi.sameExpr(l.Args[0], xa) {
-			okN = true
+		if iv == nil || seq == nil {
+			why = "outer loop does not range over all inputs"
+			continue
 		}
-		if !okN {
-			// X = <lit>.Args made with make([]T, N) in the literal, N same expr as bound
-			fi.inspect(fi.Decl.Body, func(nd ast.Node) bool {
-				kv, ok := nd.(*ast.KeyValueExpr)
-				if !ok {
+		// elem classifies an operand: "i" (element i), "<i" (an element before i), or ""
+		isSeq := func(x ast.Expr) bool {
+			if fi.sameExpr(x, seq) {
+				return true
+			}
+			// `provider.Args` where the literal's Args was made with the bound
+			if f := fi.selField(x); f != nil && f.Name() == "Args" {
+				if _, isKV := seq.(*ast.CallExpr); isKV {
 					return true
 				}
-				if id, ok := kv.Key.(*ast.Ident); ok && id.Name == "Args" {
-					if mk := fi.isBuiltin(kv.Value, "make"); mk != nil && len(mk.Args) == 2 && fi.sameExpr(mk.Args[1], lo.boundExpr) {
-						okN = true
+				if fs := fi.selField(seq); fs != nil && fs.Name() == "Args" {
+					return true
+				}
+			}
+			return false
+		}
+		var elem func(e ast.Expr, depth int) string
+		elem = func(e ast.Expr, depth int) string {
+			e = ast.Unparen(e)
+			if sel, ok := e.(*ast.SelectorExpr); ok && fi.selField(sel) != nil && fi.selField(sel).Name() == "Type" {
+				switch x := ast.Unparen(sel.X).(type) {
+				case *ast.IndexExpr:
+					if !isSeq(x.X) {
+						return ""
+					}
+					v := fi.varOf(x.Index)
+					if v == iv {
+						return "i"
+					}
+					if in, ok := inner.(*ast.ForStmt); ok {
+						if li := fi.loopShape(in); li != nil && li.v == v && li.ascending && !li.inclusive && li.from == "0" && fi.varOf(li.boundExpr) == iv {
+							return "<i"
+						}
+					}
+				case *ast.Ident:
+					v := fi.varOf(x)
+					if in, ok := inner.(*ast.RangeStmt); ok && in.Value != nil && fi.varOf(in.Value) == v {
+						if se, ok := ast.Unparen(in.X).(*ast.SliceExpr); ok && isSeq(se.X) && se.Low == nil && fi.varOf(se.High) == iv && se.Max == nil {
+							return "<i"
+						}
+					}
+					if o, ok := outer.(*ast.RangeStmt); ok && o.Value != nil && fi.varOf(o.Value) == v {
+						return "i"
 					}
 				}
-				return true
-			})
+				return ""
+			}
+			// a local that is stored as X[i].Type in this iteration
+			if v := fi.varOf(e); v != nil && depth < 2 {
+				found := ""
+				ast.Inspect(outer, func(nd ast.Node) bool {
+					as, ok := nd.(*ast.AssignStmt)
+					if !ok || len(as.Lhs) != 1 || len(as.Rhs) != 1 {
+						return true
+					}
+					ix, ok := ast.Unparen(as.Lhs[0]).(*ast.IndexExpr)
+					if !ok || !isSeq(ix.X) || fi.varOf(ix.Index) != iv {
+						return true
+					}
+					if cl, ok := ast.Unparen(as.Rhs[0]).(*ast.CompositeLit); ok {
+						for _, el := range cl.Elts {
+							if kv, ok := el.(*ast.KeyValueExpr); ok {
+								if kid, ok := kv.Key.(*ast.Ident); ok && kid.Name == "Type" && fi.varOf(kv.Value) == v {
+									found = "i"
+								}
+							}
+						}
+					}
+					return true
+				})
+				if found != "" {
+					return found
+				}
+				if d := fi.singleDef(v); d != nil && d.idx < 0 {
+					return elem(d.rhs, depth+1)
+				}
+			}
+			return ""
 		}
-		if !okN {
-			return false, "outer loop bound does not cover every input"
+		a, b := elem(id.Args[0], 0), elem(id.Args[1], 0)
+		if !((a == "i" && b == "<i") || (a == "<i" && b == "i")) {
+			why = "the compared operands are not (input i, every input before i)"
+			continue
 		}
-		if !fi.unconditionalIn(is, inner.Body) || !fi.unconditionalIn(inner, outer.Body) || !fi.loopComplete2(outer, is) {
+		if !fi.unconditionalIn(is, loopBody(inner)) || !fi.unconditionalIn(inner, loopBody(outer)) || !fi.loopComplete2(outer, is) {
 			return false, "the pair test is conditional or the loops can exit early"
 		}
-		// X[i] must already be filled when compared: any assignment to X[i] in the outer body precedes the inner loop
-		// the match edge returns a non-nil error
 		rejects := false
 		for _, ret := range returnsIn(is.Body) {
 			if fi.unconditionalIn(ret, is.Body) {
@@ -1020,10 +1138,9 @@ func (fi *FuncInfo) hasPairCheck() (bool, string) {
 		if !rejects {
 			return false, "a matching pair is not rejected"
 		}
-		// the provider is returned only after the loops
 		return true, "all pairs j<i of input types are compared with types.Identical; a match returns an error"
 	}
-	return false, "no pairwise types.Identical test over the provider's inputs found"
+	return false, why
 }
 
 // loopComplete2: the only exits of loop are inside node allowed (the rejecting branch).
@@ -1038,4 +1155,14 @@ func (fi *FuncInfo) loopComplete2(loop ast.Stmt, allowed ast.Node) bool {
 		}
 	}
 	return true
+}
+
+func loopBody(l ast.Stmt) *ast.BlockStmt {
+	switch x := l.(type) {
+	case *ast.ForStmt:
+		return x.Body
+	case *ast.RangeStmt:
+		return x.Body
+	}
+	return nil
 }
